@@ -194,13 +194,16 @@ class World:
         self.fns = {}          # pid -> python function
         self.by_obj = {}
 
-    def make(self, pid, sig, klong=False, boom=None):
+    def make(self, pid, sig, klong=False, boom=None, exc="ValueError"):
         params = (["klong"] if klong else []) + list(sig)
         src = ("def f%d(%s):\n    log.append((%d, (%s)))\n    if BOOM is not None and any(type(a_) in (int, np.int64) and a_ == BOOM for a_ in (%s)):\n"
-               "        raise ValueError('boom')\n    return TOK + len(log) - 1\n") % (
+               "        raise EXC('boom')\n    return TOK + len(log) - 1\n") % (
             pid, ", ".join(params), pid, "".join(p + ", " for p in sig), "".join(p + ", " for p in sig))
         import numpy as np
-        g = {"log": self.log, "TOK": TOK, "BOOM": boom, "np": np}
+        class CustomError(Exception):
+            pass
+        g = {"log": self.log, "TOK": TOK, "BOOM": boom, "np": np,
+             "EXC": {"ValueError": ValueError, "TypeError": TypeError, "KeyError": KeyError, "Custom": CustomError}[exc]}
         exec(src, g)
         fn = g["f%d" % pid]
         self.fns[pid] = fn
@@ -216,6 +219,10 @@ class World:
                 pid, args = self.log[v - TOK]
                 return ["pyres", pid] + [self.canon(a) for a in args]
             return ["i", v]
+        if v is None:
+            return ["none"]
+        if type(v).__name__ == "KGUndefined":
+            return ["u"]
         if isinstance(v, KGSym):
             return ["sym", SYMS.get(str(v), 99)]
         if isinstance(v, str):
@@ -256,10 +263,14 @@ def lit(v):
         return "[" + " ".join(lit(x).strip("()") for x in v[1:]) + "]"
     if v[0] == "sym":
         return ":" + [k_ for k_, n_ in SYMS.items() if n_ == v[1]][0]
+    if v[0] == "u":
+        return "(1%0)"
     raise ValueError(v)
 
 
 def pyarg(v):
+    if v[0] == "u":
+        return None          # a Python None argument of a wrapper call is Klong's :undefined
     if v[0] == "sym":
         from klongpy.core import KGSym
         return KGSym([k_ for k_, n_ in SYMS.items() if n_ == v[1]][0])
@@ -607,22 +618,40 @@ def raising_cases(rng, tier):
     """callable raising when it receives BOOM: direct / each / over, top level and inside a function"""
     out = []
     BOOM = 13
+    excs = ["ValueError", "TypeError", "KeyError", "Custom"]
     for sig in SIGS:
         n = len(sig)
         if n == 0:
             continue
         for klong in (False, True):
             for inside in (False, True):
-                forms = ["direct"] + (["each"] if n == 1 else []) + (["over"] if n == 2 else [])
+                forms = ["direct", "at"] + (["each"] if n == 1 else []) + (["over", "each2"] if n == 2 else [])
                 for form in forms:
                     w = World()
-                    w.k["pa"] = w.make(1, sig, klong, boom=BOOM)
+                    exc = excs[len(out) % 4]
+                    w.k["pa"] = w.make(1, sig, klong, boom=BOOM, exc=exc)
                     if form == "direct":
                         a = [["i", rng.choice([1, 2, 5])] for _ in range(n)]
                         a[rng.randrange(n)] = ["i", BOOM]
                         text = "pa(%s)" % ";".join(lit(x) for x in a)
                         mform = ["direct"] + a
                         want_log = [[1] + a]
+                    elif form == "at":
+                        # the arguments are members of an array (numpy scalars)
+                        a = [["i", rng.choice([1, 2, 5])] for _ in range(n)]
+                        a[rng.randrange(n)] = ["i", BOOM]
+                        text = "pa@[%s]" % " ".join(lit(x) for x in a)
+                        mform = ["at"] + a
+                        want_log = [[1] + a]
+                    elif form == "each2":
+                        k_ = rng.randint(1, 3)
+                        xs = [["i", rng.choice([1, 2, 5])] for _ in range(k_)]
+                        ys = [["i", rng.choice([1, 2, 5])] for _ in range(k_)]
+                        j_ = rng.randrange(k_)
+                        (xs if rng.random() < 0.5 else ys)[j_] = ["i", BOOM]
+                        text = "[%s]pa'[%s]" % (" ".join(lit(x) for x in xs), " ".join(lit(x) for x in ys))
+                        mform = ["each2", xs, ys]
+                        want_log = [[1, x_, y_] for x_, y_ in list(zip(xs, ys))[:j_ + 1]]
                     elif form == "each":
                         pre = [["i", rng.choice([1, 2, 5])] for _ in range(rng.randint(0, 3))]
                         post = [["i", rng.choice([1, 2, BOOM])] for _ in range(rng.randint(0, 2))]
@@ -647,17 +676,15 @@ def raising_cases(rng, tier):
                     try:
                         r = w.k(text)
                         res = ["val", w.canon(r)]
-                    except ValueError:
-                        res = ["err"]
                     except Exception as e:  # noqa
-                        res = ["err", type(e).__name__]
+                        res = ["err"] if type(e).__name__ in (exc, "CustomError") else ["err", type(e).__name__]
                     leaked = depth(w) - d0
                     try:
                         after = w.canon(w.k("x"))     # a leaked call frame would answer for the variable x
                     except Exception:  # noqa
                         after = ["exc"]
                     frames = ["frames"] + ([OUTER] if inside else []) + [[[5, ["py", 1, params_sx(sig, klong), BOOM]]]]
-                    out.append({"kind": "raising", "text": [text], "sig": params_sx(sig, klong), "form": form, "inside": inside,
+                    out.append({"kind": "raising", "exc": exc, "text": [text], "sig": params_sx(sig, klong), "form": form, "inside": inside,
                                 "impl_res": res, "impl_log": w.logs_from(0), "impl_depth": leaked, "x_after": after,
                                 "want_res": ["err"], "want_log": want_log, "req": sx(["form", frames, 5, mform])})
     return out
@@ -828,7 +855,7 @@ def hist_case(rng, length, forced=None):
                 ar = len(d[2]) if d[0] == "call" else d[2]
                 if rng.random() < 0.25:
                     ar = (ar + 1) % 4
-                a = [rng.choice([["i", 1], ["i", 2], ["i", 5]]) for _ in range(ar)]
+                a = [rng.choice([["i", 1], ["i", 2], ["i", 5], ["u"], ["u"]]) for _ in range(ar)]
                 right = ar == (len(d[2]) if d[0] == "call" else d[2])
                 if not right:
                     exp = ("res", ["err"], [])
@@ -849,7 +876,7 @@ def hist_case(rng, length, forced=None):
                 ar = len(target[2]) if target[0] == "call" else target[2]
                 if (rng.random() < 0.25) if force is None else force:
                     ar = (ar + 1) % 4
-                a = [rng.choice([["i", 1], ["i", 2], ["i", 5]]) for _ in range(ar)]
+                a = [rng.choice([["i", 1], ["i", 2], ["i", 5], ["u"], ["u"]]) for _ in range(ar)]
                 right = ar == (len(target[2]) if target[0] == "call" else target[2])
                 if not right:
                     exp = ("res", ["err"], [])
@@ -1010,7 +1037,7 @@ def sweep(chk, rng, tier, hist_count, hist_len):
             raise RuntimeError("model rejected %r: %r" % (c["req"], mo))
         if c["kind"] == "raising":
             if (c["impl_res"] != c["want_res"] or c["impl_log"] != c["want_log"] or c["impl_depth"] != 0 or c["x_after"] != ["sym", 99]) and bad_prop is None:
-                bad_prop = {"kind": "arguments", "signature": "(" + ", ".join(c["sig"]) + ") raising on 13", "statements": c["text"], "call_form": c["form"],
+                bad_prop = {"kind": "arguments", "signature": "(" + ", ".join(c["sig"]) + ") logging, then raising %s on 13" % c.get("exc", ""), "statements": c["text"], "call_form": c["form"],
                             "inside_function_with_x_y_z_7_8_9": c["inside"], "call_log": sx(c["impl_log"]),
                             "result": sx(c["impl_res"]) + " frames_left_on_scope_stack=%d x_afterwards=%s" % (c["impl_depth"], sx(c["x_after"])),
                             "prescribed_log": sx(c["want_log"]), "prescribed_result": "(err) propagated once, scope stack restored"}
